@@ -276,10 +276,14 @@ def replay(prop, payload):
             after = a.position
             blo, bhi = lb, ub
         elif payload['kind'] == 'search':
-            sp = L['SearchSpace'](n_agents=1, n_variables=nv, n_iterations=1, lower_bound=list(lb), upper_bound=list(ub))
-            sp.agents[0].position = pos
+            np.random.seed(1)
+            sp = L['SearchSpace'](n_agents=2, n_variables=nv, n_iterations=1, lower_bound=list(lb), upper_bound=list(ub))
+            sp.agents[1].position = pos
+            other = np.array(sp.agents[0].position, copy=True)
             sp.check_limits()
-            after = sp.agents[0].position
+            if not np.array_equal(other, sp.agents[0].position):
+                return True          # a freshly built, untouched agent was moved by the space's limits
+            after = sp.agents[1].position
             blo, bhi = lb, ub
         else:
             sp = L['HyperSpace'](n_agents=1, n_variables=nv, n_dimensions=pos.shape[1], n_iterations=1, lower_bound=list(lb), upper_bound=list(ub))
